@@ -8,6 +8,8 @@ def regf():
     m = importlib.import_module('vlib.contracts.' + MOD)
     for c in m.contracts():
         r.add(c)
+    if hasattr(m, 'install'):
+        r.lib_install.append(m.install)
     return r
 if __name__ == '__main__':
     MOD = sys.argv[1]
